@@ -177,9 +177,17 @@ def run_session(c, shared_ds=None):
     except Exception as e:
         return {'init': errname(e)}, None
     signals = None
+    tracked_signal = [None]
     lbs = cfg.get('lookbacks')
     if lbs is not None:
-        sigs = {'momentum': MomentumSignal(start, universe, list(lbs)), 'sma': SMASignal(start, universe, list(lbs))}
+        sigs = {}
+        if cfg.get('extra_signal'):
+            # another signal of the same collection, listed first, over a DIFFERENT (static, all-asset) universe
+            allu = StaticUniverse([a for a, _ in cfg['universe'][1]] if cfg['universe'][0] == 'dynamic' else list(cfg['universe'][1]))
+            sigs['aaa_all_assets_vol'] = VolatilitySignal(start, allu, list(lbs))
+        sigs['momentum'] = MomentumSignal(start, universe, list(lbs))
+        sigs['sma'] = SMASignal(start, universe, list(lbs))
+        tracked_signal[0] = sigs['momentum']
         if cfg['alpha'][0] == 'volfilter':
             sigs['vol'] = VolatilitySignal(start, universe, list(lbs))
         signals = SignalsCollection(sigs, dh)
@@ -232,12 +240,8 @@ def run_session(c, shared_ds=None):
             pass
         return o_qts(self, dt, stats=stats)
 
-    first_sig = [None]
-
     def spy_app(self, asset, price):
-        if first_sig[0] is None:
-            first_sig[0] = self
-        if self is first_sig[0]:
+        if self is tracked_signal[0]:
             sig_obs.setdefault(asset, []).append([updates[-1] if updates else None, num(price)])
         return o_app(self, asset, price)
     Portfolio.transact_asset, SimulatedBroker.update, QuantTradingSystem.__call__, Signal.append = spy_tx, spy_up, spy_qts, spy_app
